@@ -7,8 +7,11 @@ package main
 import (
 	"fmt"
 	"math"
+	"math/big"
 	"sort"
 	"strings"
+
+	"github.com/cockroachdb/apd/v3"
 
 	"verifharness/lib"
 	"verifharness/lib/eng"
@@ -98,6 +101,8 @@ type caseT struct {
 	LeadO int64    `json:"lead_off"`
 	LeadD IV       `json:"lead_def"`
 	Where string   `json:"where,omitempty"`
+	Cents []IV     `json:"cents,omitempty"` // decimal kind: d = cents/100 per row (g from Rows)
+	RDesc bool     `json:"range_desc,omitempty"`
 	SQL   []string `json:"sql,omitempty"`
 }
 
@@ -337,6 +342,21 @@ func gen(r *lib.RNG) caseT {
 	cs := caseT{Kind: "window", Rows: genRows(r), SB: genBound(r, true), EB: genBound(r, false),
 		NT: int64(r.Range(1, 6)), LagO: int64(r.Range(0, 3)), LeadO: int64(r.Range(0, 3)),
 		LagD: genIV(r, 1, 2, -7, -1), LeadD: genIV(r, 1, 2, -7, -1)}
+	switch r.Intn(10) {
+	case 0: // DECIMAL aggregates
+		cs.Kind = "decimal"
+		cs.Cents = make([]IV, len(cs.Rows))
+		for i := range cs.Cents {
+			cs.Cents[i] = genIV(r, 1, 5, -5000, 90000)
+		}
+		return cs
+	case 1, 2: // RANGE frames: integer order keys without NULL, gaps and ties
+		cs.Kind = "range"
+		for i := range cs.Rows {
+			cs.Rows[i].K = IV{V: int64(r.Range(0, 9))}
+		}
+		return cs
+	}
 	if r.Chance(3, 4) {
 		cs.Kind = "group"
 		if r.Chance(1, 6) {
@@ -697,6 +717,266 @@ func runGroup(c *lib.Ctx, cs caseT) {
 	}
 }
 
+// ---------- DECIMAL aggregates (exact apd accumulator), evaluated repeatedly; the table must stay unchanged ----------
+
+func decCents(v interface{}) (int64, bool) {
+	var txt string
+	switch x := v.(type) {
+	case *apd.Decimal:
+		txt = x.Text('f')
+	case apd.Decimal:
+		txt = x.Text('f')
+	case string:
+		txt = x
+	default:
+		return 0, false
+	}
+	r, ok := new(big.Rat).SetString(txt)
+	if !ok {
+		return 0, false
+	}
+	r.Mul(r, big.NewRat(100, 1))
+	if !r.IsInt() || !r.Num().IsInt64() {
+		return 0, false
+	}
+	return r.Num().Int64(), true
+}
+
+func obsDec(v interface{}) oval {
+	if v == nil {
+		return oval{kind: "null"}
+	}
+	if c, ok := decCents(v); ok {
+		return oval{kind: "int", i: c}
+	}
+	return oval{kind: "other", raw: fmt.Sprintf("%T:%v", v, v)}
+}
+
+func centsSQL(v IV) string {
+	if v.Null {
+		return "NULL"
+	}
+	sign := ""
+	c := v.V
+	if c < 0 {
+		sign, c = "-", -c
+	}
+	return fmt.Sprintf("%s%d.%02d", sign, c/100, c%100)
+}
+
+func runDecimal(c *lib.Ctx, cs caseT) {
+	e := eng.New("db")
+	s := e.Session()
+	s.MustExec("CREATE TABLE td (id BIGINT PRIMARY KEY, g BIGINT, d DECIMAL(12,2))")
+	byG := map[int64][]IV{}
+	var all []IV
+	for i, r := range cs.Rows {
+		s.MustExec(fmt.Sprintf("INSERT INTO td VALUES (%d, %d, %s)", r.ID, r.G, centsSQL(cs.Cents[i])))
+		byG[r.G] = append(byG[r.G], cs.Cents[i])
+		all = append(all, cs.Cents[i])
+	}
+	qGroup := "SELECT g, SUM(d), MIN(d), MAX(d), COUNT(d), AVG(d) FROM td GROUP BY g"
+	qSum := "SELECT g, SUM(d) FROM td GROUP BY g"
+	qAll := "SELECT 0, SUM(d), MIN(d), MAX(d), COUNT(d), AVG(d) FROM td"
+	cs.SQL = []string{qGroup, qSum, qSum, qAll, qGroup, "SELECT id, d FROM td ORDER BY id"}
+	fail := func(id int, sig, what string) { c.PredFail(id, sig, what, cs) }
+	checkAgg := func(q string, round int, xs []IV, row []interface{}, withModel bool) {
+		o := []oval{obsDec(row[1]), obsDec(row[2]), obsDec(row[3]), obs(row[4])}
+		var id int
+		key := ""
+		if len(xs) >= 2 {
+			key = fmt.Sprintf("dec|%v", xs)
+		}
+		if withModel {
+			term := fmt.Sprintf("CDec %s %s %s %s %s", coqIVs(xs), o[0].Coq(), o[1].Coq(), o[2].Coq(), lib.CoqZ(o[3].i))
+			id = mkCase(c, term, cs, key)
+		} else {
+			id = mkCaseNM(c, cs, key)
+		}
+		c.Count("decimal_group")
+		nn := 0
+		for _, x := range xs {
+			if !x.Null {
+				nn++
+			}
+		}
+		if nn >= 2 {
+			c.Count("decimal_group_2plus_values")
+		}
+		c.PredChecked()
+		for i, fn := range []string{"SUM", "MIN", "MAX", "COUNT"} {
+			w := refAgg(fn, xs)
+			if !w.matches(o[i]) {
+				fail(id, fmt.Sprintf("decimal-%s/wrong-value/evaluation-%d", strings.ToLower(fn), round),
+					fmt.Sprintf("%s (evaluation %d): %s over cents %v = %v cents, definition gives %v", q, round, fn, xs, o[i], w))
+			}
+		}
+		// AVG = sum/count rounded at scale+4
+		w := refAgg("AVG", xs)
+		if w.null {
+			if row[5] != nil {
+				fail(id, "decimal-avg/wrong-value", fmt.Sprintf("%s: AVG over %v = %v, definition gives NULL", q, xs, row[5]))
+			}
+		} else {
+			var txt string
+			switch x := row[5].(type) {
+			case *apd.Decimal:
+				txt = x.Text('f')
+			default:
+				txt = fmt.Sprint(x)
+			}
+			got, ok := new(big.Rat).SetString(txt)
+			want := big.NewRat(w.num, w.den*100)
+			if !ok || new(big.Rat).Abs(new(big.Rat).Sub(got, want)).Cmp(big.NewRat(1, 1000000)) > 0 {
+				fail(id, "decimal-avg/wrong-value", fmt.Sprintf("%s: AVG over cents %v = %s, definition gives %s", q, xs, txt, want.FloatString(8)))
+			}
+		}
+	}
+	round := 0
+	for qi, q := range []string{qGroup, qSum, qSum, qAll, qGroup} {
+		round++
+		res := s.Query(q)
+		if res.Err != nil {
+			id := mkCaseNM(c, cs, "")
+			c.PredChecked()
+			fail(id, "decimal/error", fmt.Sprintf("%s: %v", q, res.Err))
+			return
+		}
+		for _, row := range res.Rows {
+			switch {
+			case q == qSum:
+				g, _ := row[0].(int64)
+				w := refAgg("SUM", byG[g])
+				id := mkCaseNM(c, cs, "")
+				c.PredChecked()
+				if o := obsDec(row[1]); !w.matches(o) {
+					fail(id, fmt.Sprintf("decimal-sum/wrong-value/evaluation-%d", round), fmt.Sprintf("%s (evaluation %d): SUM over cents %v = %v, definition gives %v", q, round, byG[g], o, w))
+				}
+			case q == qAll:
+				if len(all) > 0 || true {
+					checkAgg(q, round, all, row, false)
+				}
+			default:
+				g, _ := row[0].(int64)
+				checkAgg(q, round, byG[g], row, qi == 0)
+			}
+		}
+	}
+	// the stored values must be what was inserted
+	res := s.Query("SELECT id, d FROM td ORDER BY id")
+	id := mkCaseNM(c, cs, "")
+	c.PredChecked()
+	want := map[int64]IV{}
+	for i, r := range cs.Rows {
+		want[r.ID] = cs.Cents[i]
+	}
+	if res.Err != nil || len(res.Rows) != len(cs.Rows) {
+		fail(id, "decimal/table-changed", fmt.Sprintf("SELECT id, d FROM td after the aggregates: %v, %d rows for %d inserted", res.Err, len(res.Rows), len(cs.Rows)))
+		return
+	}
+	for _, row := range res.Rows {
+		w := want[row[0].(int64)]
+		o := obsDec(row[1])
+		if !wIV(w).matches(o) {
+			fail(id, "decimal/table-changed-by-aggregate", fmt.Sprintf("after %v the stored d of id=%v is %v cents, inserted %v", cs.SQL[:5], row[0], o, wIV(w)))
+			break
+		}
+	}
+}
+
+// ---------- RANGE frames over an integer order key: implementation-side reference only ----------
+
+func runRange(c *lib.Ctx, cs caseT) {
+	s := setup(cs.Rows)
+	frameSQL := fmt.Sprintf("RANGE BETWEEN %s AND %s", cs.SB.SQL(), cs.EB.SQL())
+	dir := ""
+	if cs.RDesc {
+		dir = " DESC"
+	}
+	w := "OVER (PARTITION BY g ORDER BY k" + dir + " " + frameSQL + ")"
+	fns := []string{"SUM", "COUNT", "COUNT*", "MAX", "AVG"}
+	q := fmt.Sprintf("SELECT id, SUM(x) %s, COUNT(x) %s, COUNT(*) %s, MAX(x) %s, AVG(x) %s FROM t", w, w, w, w, w)
+	cs.SQL = []string{q}
+	res := s.Query(q)
+	if res.Err != nil && res.Panic == "" {
+		c.Count("range_query_rejected:" + eng.ErrKind(res.Err))
+		return
+	}
+	shape := "range-" + cs.SB.Kind + "-" + cs.EB.Kind
+	if res.Panic != "" {
+		id := mkCaseNM(c, cs, q)
+		c.PredChecked()
+		c.PredFail(id, "range/panic/"+shape, fmt.Sprintf("%s panicked: %s", q, res.Panic), cs)
+		return
+	}
+	byID := map[int64]Rec{}
+	for _, r := range cs.Rows {
+		byID[r.ID] = r
+	}
+	// the frame of row r by the definition: rows of the partition whose key lies in [key+lo, key+hi] in sort direction
+	sgn := int64(1)
+	if cs.RDesc {
+		sgn = -1
+	}
+	frameOf := func(r Rec) []IV {
+		var fr []IV
+		for _, o := range cs.Rows {
+			if o.G != r.G {
+				continue
+			}
+			dv := (o.K.V - r.K.V) * sgn // distance in sort direction
+			okLo := cs.SB.Kind == "UP" || dv >= cs.SB.off()
+			okHi := cs.EB.Kind == "UF" || dv <= cs.EB.off()
+			if okLo && okHi {
+				fr = append(fr, o.X)
+			}
+		}
+		return fr
+	}
+	for fi, fn := range fns {
+		id := mkCaseNM(c, cs, fmt.Sprintf("%s|%s|%v", fn, frameSQL, cs.Rows))
+		c.Count("range_" + fn)
+		c.Count("frame_" + shape)
+		c.PredChecked()
+		if len(res.Rows) != len(cs.Rows) {
+			c.PredFail(id, "range/row-count", fmt.Sprintf("%s returned %d rows for %d", q, len(res.Rows), len(cs.Rows)), cs)
+			continue
+		}
+		for _, row := range res.Rows {
+			idv, ok := row[0].(int64)
+			r, known := byID[idv]
+			if !ok || !known {
+				c.PredFail(id, "win/row-identity", fmt.Sprintf("%s returned a row with id %v", q, row[0]), cs)
+				break
+			}
+			fr := frameOf(r)
+			wv := refAgg(fn, fr)
+			o := obs(row[1+fi])
+			if !wv.matches(o) {
+				sig := "range-" + strings.ToLower(fn) + "/wrong-value/" + shape
+				allNull := len(fr) > 0
+				for _, x := range fr {
+					if !x.Null {
+						allNull = false
+					}
+				}
+				switch {
+				case cs.RDesc:
+					// window_framer.go never looks at the sort direction: bounds are computed as for ASC
+					sig = "range-frame/desc-order-key-treated-as-ascending"
+				case fn == "SUM" && allNull && o.kind == "int" && o.i == 0:
+					sig = "win-sum/all-null-frame-gives-0"
+				case fn == "AVG" && wv.null && o.kind == "nan":
+					sig = "win-avg/no-value-gives-nan"
+				}
+				c.PredFail(id, sig, fmt.Sprintf("%s(x) OVER (PARTITION BY g ORDER BY k%s %s): row id=%d (g=%d, k=%d) got %v, definition gives %v over frame %v; partition rows %v",
+					fn, dir, frameSQL, r.ID, r.G, r.K.V, o, wv, fr, cs.Rows), cs)
+				break
+			}
+		}
+	}
+}
+
 // special corpus cases outside the modelled fragment: predicate only
 func runSpecial(c *lib.Ctx) {
 	e := eng.New("db")
@@ -711,6 +991,10 @@ func runSpecial(c *lib.Ctx) {
 		{"sum/beyond-2^53-float64-accumulator", "SELECT SUM(x) FROM u", "9007199254740993", func(v interface{}) bool {
 			f, ok := v.(float64)
 			return ok && f == 9007199254740993 && false // float64 cannot hold the value: any float result is off by one
+		}},
+		{"sum/beyond-2^53-float64-accumulator", "SELECT SUM(x) FROM (SELECT 9007199254740992 AS x UNION ALL SELECT 1 UNION ALL SELECT 1) q", "9007199254740994 (representable in float64)", func(v interface{}) bool {
+			f, ok := v.(float64)
+			return ok && f == 9007199254740994
 		}},
 		{"win-sum/beyond-2^53-prefix-difference", "SELECT SUM(x) OVER (ORDER BY id ROWS BETWEEN CURRENT ROW AND CURRENT ROW) FROM u WHERE id = 2 OR id = 1 ORDER BY id DESC LIMIT 1", "1", func(v interface{}) bool {
 			f, ok := v.(float64)
@@ -740,6 +1024,10 @@ func run(c *lib.Ctx, cs caseT) {
 		runGroup(c, cs)
 	case "special":
 		runSpecial(c)
+	case "decimal":
+		runDecimal(c, cs)
+	case "range":
+		runRange(c, cs)
 	default:
 		runWindow(c, cs)
 	}
@@ -771,6 +1059,13 @@ func main() {
 		run(c, caseT{Kind: "group", Rows: corpus})
 		run(c, caseT{Kind: "group", Rows: corpus, Where: "id > 1000"})
 		run(c, caseT{Kind: "group", Rows: []Rec{}})
+		run(c, caseT{Kind: "decimal", Rows: corpus, Cents: []IV{iv(10), iv(20), iv(135), null, iv(-250), iv(99999)}})
+		rk := []Rec{{1, 1, iv(0), iv(5)}, {2, 1, iv(1), iv(7)}, {3, 1, iv(1), null}, {4, 1, iv(2), iv(1)}, {5, 1, iv(5), iv(3)}, {6, 2, iv(4), null}, {7, 2, iv(4), iv(2)}}
+		run(c, caseT{Kind: "range", Rows: rk, SB: Bound{Kind: "P", N: 2}, EB: Bound{Kind: "P", N: 1}})
+		run(c, caseT{Kind: "range", Rows: rk, SB: Bound{Kind: "P", N: 3}, EB: Bound{Kind: "P", N: 2}})
+		run(c, caseT{Kind: "range", Rows: rk, SB: Bound{Kind: "P", N: 1}, EB: Bound{Kind: "F", N: 1}})
+		run(c, caseT{Kind: "range", Rows: rk, SB: Bound{Kind: "UP"}, EB: Bound{Kind: "C"}})
+		run(c, caseT{Kind: "range", Rows: rk, SB: Bound{Kind: "C"}, EB: Bound{Kind: "UF"}, RDesc: true})
 		for nCases < c.N {
 			run(c, gen(c.R.Fork()))
 		}
